@@ -142,6 +142,10 @@ func (m *Map[K, V]) Replace(old, new K, v V) {
 		// Delete "old" from the index and update "new" to point to idx
 		delete(m.index, old)
 		m.index[new] = idx
+	} else if !exists {
+		// old == new, but the key wasn't in the map: the item appended above
+		// must be indexed too, otherwise Len/Get/Contains can't see it.
+		m.index[new] = idx
 	}
 
 	// Put the item into m.items at idx.
